@@ -271,6 +271,7 @@ Definition wf_op (o : op) : bool :=
   | Delegate st _ op _ => no_slash st && no_slash op
   | Undelegate st _ op _ n _ => no_slash st && no_slash op && (0 <=? n)
   | GenesisLoad r => rec_wf r
+  | NstBalance _ _ _ => false   (* UpdateNSTBalance is modelled and correspondence-checked, but outside the theorems *)
   | _ => true
   end.
 
@@ -304,7 +305,7 @@ Proof.
   intros (Su & Sp & K & Ip & W & Hh) H. unfold slash in H.
   destruct ((prop <? 0) || (prop >? P)); [discriminate|].
   destruct (slash_pools op prop (oa s) (dg s) (sl s)) as [[[o' d'] l'] ev2].
-  destruct (eh <? height s) eqn:Eh.
+  destruct (eh <=? height s) eqn:Eh.
   - pose proof (slash_records_map op eh prop (ur s)) as M.
     destruct (slash_records op eh prop (ur s)) as [u' ev1]. simpl in M. subst u'.
     inversion H; subst; clear H. unfold idx_inv. simpl. repeat split.
@@ -439,11 +440,12 @@ Proof.
   - destruct (delegate s staker asset operator x) as [s'|] eqn:E; simpl; [|exact I].
     apply delegate_frame in E. destruct E as (? & ? & ?). eapply (idx_inv_ext s s'); eauto.
   - destruct (undelegate s staker asset operator x nonce tx) as [[s' r]|] eqn:E; simpl; [|exact I].
-    destruct (hook_panics s operator); simpl; [exact I|]. eapply undelegate_idx; eauto.
+    eapply undelegate_idx; eauto.
   - apply genesis_load_idx; assumption.
   - destruct prop as [p|]; simpl; [|exact I].
     destruct (slash s operator eh p) as [s'|] eqn:E; simpl; [|exact I]. eapply slash_idx; eauto.
   - pose proof (hold_inc_frame s rk) as (? & ? & ?). eapply (idx_inv_ext s); eauto.
   - pose proof (hold_dec_frame s rk) as (? & ? & ?). eapply (idx_inv_ext s); eauto.
   - destruct (end_block_idx (fun _ => True) (fun _ _ _ _ _ => Logic.I) (fun _ _ _ => Logic.I) s I Logic.I) as (A & _). exact A.
+  - discriminate.
 Qed.
